@@ -12,7 +12,7 @@ import (
 )
 
 func init() {
-	register(&Rule{ID: "E-WRITE-OWNERSHIP", Props: []string{"C06", "C07", "C13", "C15", "C01", "C17"}, Floor: 40,
+	register(&Rule{ID: "E-WRITE-OWNERSHIP", Props: []string{"C06", "C07", "C13", "C15", "C01", "C17", "C12", "C18"}, Floor: 40,
 		Doc: "every memory write in API-reachable code of the evaluator and root packages (store through an element/field/pointer address, map update, first argument of append, argument written by a mutating library call) targets memory allocated in the same call; types whose methods write through their fields are constructed only from fresh memory",
 		Run: ruleEWriteOwnership})
 	register(&Rule{ID: "E-AST-READONLY", Props: []string{"C06", "C07", "C19"}, Floor: 3,
